@@ -9,11 +9,10 @@
 //! blocking point that still cannot proceed *parks*: `recv` returns `Err` with
 //! `verif_sched::PARKED` set (the harness stops that logical thread there), `send` cuts the path
 //! unless `SEND_BLOCK_IS_FAILURE` asks for an assertion instead.
-use core::cell::UnsafeCell;
 use core::mem::MaybeUninit;
 use verif_sched as vs;
 
-pub const QCAP: usize = 8;
+pub const QCAP: usize = 16;
 
 pub static mut TICKS_GRANTED: u32 = 0;
 pub static mut SEND_BLOCK_IS_FAILURE: bool = false;
